@@ -2,7 +2,7 @@
 C07 — constraint verdicts follow the documented selector/quantifier semantics.
 
 FULL STATEMENT.  For every derivation tree `t`, constraint `c` of the modelled constraint language
-(all combinators, all selectors except `{…}`, atoms of `Model/Constraint.lean`), scope `σ` and local
+(all combinators, all selectors, atoms of `Model/Constraint.lean`), scope `σ` and local
 variables `ρ`:   `Constraint.check(t, σ, ρ)` answers `True`  ⇔  `denote c t σ ρ`,
 where `denote` is the documented meaning (expression truthy for every combination of matches; no match
 = nothing to violate; a raising combination fails; quantifiers bind for their body only), and the lazy
@@ -22,8 +22,8 @@ from the source on every run (`Generated.consCfg`):
 Guard (what the real code rejects): an exception raised by a *selector* (`<a>[7]` IndexError,
 `<a>[0, 1]` TypeError) is not caught by `fitness()`; `check` then raises instead of answering.  The model
 has that branch (`opFit … = .error e`, `check = none`) and the theorems are stated under exactly
-`opFit … = .ok …`.  `{…}` selectors are excluded: every one of them raises ValueError in the real code
-(finding F12, signature `C07/selective-search`).
+`opFit … = .ok …`.  `{…}` selectors are modelled as the code reads after fix 0d18e90f (before it every one of
+them raised ValueError: finding F12).
 
 The models (`Model/Search.lean`, `Model/Constraint.lean`) are tied to /repo by `harness/props/c07.py`.
 Every `theorem` in this file is an obligation audited with `#print axioms`.
@@ -226,6 +226,24 @@ theorem C07_sel_slice_split (t : Tree) (i : Nat) :
            a ++ b = t.kids :=
   ⟨t.kids.take i, t.kids.drop i, by simp [Tree.getItem, Tree.pySlice_prefix],
     by simp [Tree.getItem, Tree.pySlice_suffix], List.take_append_drop i t.kids⟩
+
+/-- `B{*<x>: i, *<y>}`: for every entry in turn, the matches of the symbol below every match of `B`
+    (all descendants for `*`), optionally indexed / sliced per base match -/
+theorem C07_sel_selective (b : Search) (ps : List SelPair) (t : Tree) (σ : Scope) :
+    (Search.sel b ps).find t σ =
+      match b.find t σ with
+      | .error e => .error e
+      | .ok bs =>
+        match flatMapE (selPair (allTrees bs)) ps with
+        | .error e => .error e
+        | .ok ts => .ok (ts.map .tree) := by
+  simp only [Search.find, Search.findG]
+  cases Search.findG false b t σ <;> rfl
+
+/-- one entry without items over one base tree: all `<x>` within it -/
+theorem C07_sel_selective_entry (u : Tree) (x : String) :
+    selPair [u] ⟨x, false, none⟩ = .ok (u.findAll x) := by
+  simp [selPair, flatMapE, selItems]
 
 /-- `*B`: one collection holding every match of `B` -/
 theorem C07_sel_star (b : Search) (t : Tree) (σ : Scope) :
